@@ -322,6 +322,7 @@ package message
 //@ spec wrap(ms []middleware, i int, name string, f HandlerFunc) HandlerFunc := i >= len(ms) ? f : (applies(ms[i], name) ? app(ms[i].Handler, wrap(ms, i + 1, name, f)) : wrap(ms, i + 1, name, f)) decreases len(ms) - i
 
 //@ func (*handler).run
+//@   ghost nowait h.runningHandlersWg
 //@   ghost waits handler.runningHandlersWgLock
 //@   requires h != nil && h.runningHandlersWg != nil && h.runningHandlersWgLock != nil && h.messagesCh != nil && h.handlerFunc != nil
 //@   requires ctx != nil && h.subscriber != nil && h.stopFn != nil && h.routersCloseCh != nil [what-the-close-watcher-needs]
@@ -449,6 +450,7 @@ package message
 //@   ensures calls(SS) == old(calls(SS)) + 1 && arg(SS, 0, old(calls(SS))) == ctx && arg(SS, 1, old(calls(SS))) == topic [subscribes-the-inner-subscriber-once-with-the-same-context-and-topic]
 //@   ensures ret(SS, 1, old(calls(SS))) != nil ==> result0 == nil && result1 == ret(SS, 1, old(calls(SS))) && spawned("(*messageTransformSubscriberDecorator).Subscribe$1") == old(spawned("(*messageTransformSubscriberDecorator).Subscribe$1")) [inner-error-passed-through-nothing-started]
 //@   ensures ret(SS, 1, old(calls(SS))) == nil ==> result1 == nil && result0 != nil && fresh(result0) && spawned("(*messageTransformSubscriberDecorator).Subscribe$1") == old(spawned("(*messageTransformSubscriberDecorator).Subscribe$1")) + 1 [one-pump-started-on-a-fresh-output-channel]
+//@   ensures wgtoken(t.subscribeWg) == old(wgtoken(t.subscribeWg)) [every-token-taken-was-handed-to-a-pump-a-refused-subscribe-leaves-nothing-for-Close-to-wait-for]
 //@   panics-ensures panicked(SS, old(calls(SS)))
 //@   modifies wg(t.subscribeWg)
 
